@@ -292,14 +292,43 @@ def main(argv=None):
     )
     if a.replay:
         nshards = 1
-    root = tempfile.mkdtemp(prefix="gvmon-%s-" % pid, dir=scratch_root())
     timeout = getattr(mod, "TIMEOUT", {}).get(tier, 900 if tier == "quick" else 4 * 3600)
+    results, problems = run_pass(pid, mod, tier, seed, nshards, timeout, a.replay)
+    extra_notes = []
+    if not a.replay and not problems:
+        miss = missing_required(mod, results)
+        if miss:
+            # A required monitor or input class was not reached with this seed.  Before calling the run inconclusive, one
+            # top-up pass with a derived seed is added (counts are sums over both passes); what is still missing after
+            # that makes the run inconclusive as before.
+            seed2 = seed + 1000003
+            results2, problems2 = run_pass(pid, mod, tier, seed2, nshards, timeout, None)
+            results += results2
+            problems += problems2
+            extra_notes.append("top-up pass with seed %d added because these required monitors/classes were not reached with seed %d: %s"
+                               % (seed2, seed, "; ".join(miss[:6])))
+    return finish(pid, mod, tier, seed, nshards, results, problems, t0, replay=a.replay, extra_notes=extra_notes)
+
+
+def missing_required(mod, results):
+    monitors, classes = Counter(), Counter()
+    for r in results:
+        for mk, mv in r["monitors"].items():
+            monitors[mk] += mv
+        classes.update(r["classes"])
+    return [m for m in getattr(mod, "REQUIRED", []) if monitors.get(m, 0) == 0] + \
+           [c for c in getattr(mod, "REQUIRED_CLASSES", []) if classes.get(c, 0) == 0]
+
+
+def run_pass(pid, mod, tier, seed, nshards, timeout, replay):
+    """One pass of all shards with this seed; returns (shard results, problems)."""
+    root = tempfile.mkdtemp(prefix="gvmon-%s-" % pid, dir=scratch_root())
     procs = []
     try:
         base_hs = os.environ.get("PYTHONHASHSEED", "0")
-        if a.replay:
+        if replay:
             try:
-                with open(a.replay) as fh:
+                with open(replay) as fh:
                     base_hs = str(json.load(fh).get("hashseed", base_hs))
             except Exception:
                 pass
@@ -307,6 +336,7 @@ def main(argv=None):
             sdir = os.path.join(root, "s%d" % i)
             os.makedirs(os.path.join(sdir, "tmp"))
             envv = dict(os.environ)
+            envv["VERIF_SEED"] = str(seed)
             envv["VERIF_SHARD_SCRATCH"] = sdir
             envv["TMPDIR"] = os.path.join(sdir, "tmp")
             # the hash seed is a configuration dimension: gffutils builds
@@ -318,8 +348,8 @@ def main(argv=None):
             envv["PYTHONHASHSEED"] = str(hs)
             cmd = [sys.executable, "-m", "gvmon.run", pid, "--tier", tier,
                    "--shard", "%d/%d" % (i, nshards), "--out", os.path.join(sdir, "out.json")]
-            if a.replay:
-                cmd += ["--replay", a.replay]
+            if replay:
+                cmd += ["--replay", replay]
             log = open(os.path.join(sdir, "log"), "w")
             procs.append((i, sdir, subprocess.Popen(cmd, env=envv, stdout=log, stderr=log, cwd=HERE), log))
         results = []
@@ -346,7 +376,7 @@ def main(argv=None):
             if r["status"] != "ok":
                 problems.append("shard %d: %s: %s" % (i, r["status"], r["error"]))
             results.append(r)
-        return finish(pid, mod, tier, seed, nshards, results, problems, t0, replay=a.replay)
+        return results, problems
     finally:
         for _, _, p, _ in procs:
             if p.poll() is None:
@@ -354,7 +384,7 @@ def main(argv=None):
         shutil.rmtree(root, ignore_errors=True)
 
 
-def finish(pid, mod, tier, seed, nshards, results, problems, t0, replay=None):
+def finish(pid, mod, tier, seed, nshards, results, problems, t0, replay=None, extra_notes=None):
     evaluations = sum(r["evaluations"] for r in results)
     distinct = set()
     for r in results:
@@ -386,6 +416,8 @@ def finish(pid, mod, tier, seed, nshards, results, problems, t0, replay=None):
         for n in r["notes"]:
             if n not in notes:
                 notes.append(n)
+    for n in (extra_notes or []):
+        notes.append(n)
     required = list(getattr(mod, "REQUIRED", []))
     missing = [m for m in required if monitors.get(m, 0) == 0] if not replay else []
     required_classes = list(getattr(mod, "REQUIRED_CLASSES", [])) if not replay else []
